@@ -257,7 +257,7 @@ X86Step(P, s) ==
         ELSE Next1([s EXCEPT !.regs["rsp"] = StkV(sp.o - 8), !.stk = ((sp.o - 8) :> s.regs[i.a[1].r]) @@ s.stk])
   ELSE IF op = "pop" THEN
      LET sp == s.regs["rsp"]
-     IN IF sp.t # "stk" \/ sp.o >= 0 THEN Fail(s, "mem", "pop beyond the routine's own frame")
+     IN IF sp.t # "stk" \/ sp.o > 0 THEN Fail(s, "mem", "pop beyond the routine's own frame")     \* at 0 it pops the return address
         ELSE Next1([s EXCEPT !.regs = [s.regs EXCEPT ![i.a[1].r] = Sparse(s.stk, sp.o, UndefV), !["rsp"] = StkV(sp.o + 8)],
                              !.stk = [o \in {k \in DOMAIN s.stk : k > sp.o} |-> s.stk[o]]])
   ELSE IF op = "call" THEN
